@@ -21,6 +21,7 @@ LEVEL_TEXT += (" Also: (B) every nested block is checked under its own nested va
 LEVEL_TEXT += (' (E3.l must-pass) for every source the lazy interpreter evaluates eagerly, no path of the checker from checking that source to a successful return avoids the `is_local` test; loop variable and loop body / comprehension element are checked in one scope; (E5.mut) the checker records `let` as immutable and `var` as mutable.')
 LEVEL_TEXT += (" (C10.null) every scan arm passes the nullable-regex test on every round of the arm loop; the loop variable of for/comprehensions is registered with the iterated value's own checker facts.")
 
+LEVEL_TEXT += (" (C06.E) every element-checking loop of the checker reaches a check on every cycle; (C06.Q) the quantifier recorded per expression form follows the table (One for literals, calls, constants, regex captures, scoped reads; ZeroOrMore for list / set forms; the capture's own quantifier).")
 CONJ = r"^phi\(\(rec BitAnd \(Try::branch\(checker::check\(&\*\(Iterator::next\(&IntoIterator::into_iter\(&\*arg:self\.%s\)\) as Some\)\.0, &\*arg:ctx\)\) as Continue\)\.0\.is_local\) \| true\)$"
 ELEMENT = r"^\(Try::branch\(checker::check\(&\*cast\(\*arg:self\.element\), &checker::CheckContext::CheckContext\{.*VariableMap::nested\(cast\(&\*\*arg:ctx\.locals\)\)\)\}\)\) as Continue\)\.0\.is_local$"
 
@@ -35,6 +36,16 @@ LOCAL_TABLE = {
     "tsg::ast::StringConstant": ("check", r"^true$", "constant"),
     "tsg::ast::RegexCapture": ("check", r"^true$", "regex captures are local"),
     "tsg::ast::ScopedVariable": ("check_get", r"^false$", "scoped reads are never local"),
+}
+
+
+ONE, MANY = r"^(tree_sitter::)?CaptureQuantifier::One\{\}$", r"^(tree_sitter::)?CaptureQuantifier::ZeroOrMore\{\}$"
+QUANT_TABLE = {
+    "tsg::ast::ListLiteral": (MANY, "a list is `*`"), "tsg::ast::SetLiteral": (MANY, "a set is `*`"),
+    "tsg::ast::ListComprehension": (MANY, "a list is `*`"), "tsg::ast::SetComprehension": (MANY, "a set is `*`"),
+    "tsg::ast::Call": (ONE, "a call result is a single value"), "tsg::ast::IntegerConstant": (ONE, "constant"), "tsg::ast::StringConstant": (ONE, "constant"),
+    "tsg::ast::RegexCapture": (ONE, "a regex capture is a single string"), "tsg::ast::ScopedVariable": (ONE, "a scoped read is a single value"),
+    "tsg::ast::Capture": (r"^\*arg:self\.quantifier$", "the capture's own quantifier in the stanza's query"),
 }
 
 
@@ -110,6 +121,37 @@ def tested_before_success(prog, f, field_pat, prop_name):
     return out
 
 
+def every_element_checked(prog, rep, only=None):
+    """C06.E: a loop of the checker that checks the elements of an AST collection checks an element on *every* cycle: an element
+    skipped by an extra `continue` is neither checked nor resolved (capture and full-match indices are resolved by the checker)."""
+    rep.rule("C06.E", "every loop of the checker that checks AST elements (stanzas, statements, arms, attributes, parameters, elements) reaches an element check on every cycle")
+    n = 0
+    for f in sorted([x for x in prog.shape_fns() if x.body is not None and x.file.startswith("src/checker") and x.crate.prefix == "tsg"], key=lambda x: x.id):
+        if only is not None and not only(f):
+            continue
+        body = f.body
+        for h, bl in natural_loops(body):
+            inner = [x for x in natural_loops(body) if x[0] != h and x[0] in bl]
+            chks = set()
+            for b, t in body.calls():
+                if b not in bl:
+                    continue
+                g = prog.fns.get((callee_fn(t).get("rdef") or callee_fn(t)["def"]))
+                if g is not None and g.file.startswith("src/checker") and g.name in ("check", "check_add", "check_set", "check_get"):
+                    chks.add(b)
+            if not chks:
+                continue
+            # a nested loop that checks the element's own children stands for its checks: reaching its header is enough
+            for h2, bl2 in inner:
+                if chks & bl2:
+                    chks = (chks - bl2) | {h2}
+            n += 1
+            rep.check(not cycle_avoiding(body, h, bl, chks), "C06.E", "%s :: element loop #%d" % (f.id, sorted(x[0] for x in natural_loops(body)).index(h)),
+                      f.loc(), "each cycle passes through an element check",
+                      "a cycle of this loop can skip the element check: that element's rule violations are not rejected and its capture / full-match indices are never resolved")
+    return n
+
+
 def run(prog, rep):
     chk = [f for f in prog.shape_fns() if f.file == "src/checker.rs" and f.body is not None]
     # ---- E8.c catalogue
@@ -150,6 +192,10 @@ def run(prog, rep):
             c = canon(d["is_local"])
             rep.check(re.match(pat, c) is not None, "C06.L", "%s :: is_local #%d" % (f.id, i), sp_str(st["sp"]), "%s: %s" % (why, c[:140]),
                       "is_local of %s is `%s`; the rule table requires: %s" % (ty.rsplit("::", 1)[-1], c[:260], why))
+            qpat, qwhy = QUANT_TABLE[ty]
+            q = canon(strip(d["quantifier"]))
+            rep.check(re.match(qpat, q) is not None, "C06.Q", "%s :: quantifier #%d" % (f.id, i), sp_str(st["sp"]), "%s: %s" % (qwhy, q[:100]),
+                      "the quantifier the checker records for %s is `%s`; the rule table requires: %s (it decides whether `some`/`none` and iteration accept the value)" % (ty.rsplit("::", 1)[-1], q[:200], qwhy))
         # conjunction must be updated on every iteration of the children loop
         if "conjunction" in why:
             body = f.body
@@ -164,6 +210,9 @@ def run(prog, rep):
         for i, (b, st, d) in enumerate(results_of(f, tr)):
             n += 1
             rep.check(canon(d["is_local"]) == "true", "C06.L", "%s :: literal #%d" % (f.id, i), sp_str(st["sp"]), "literal is local", "a literal is not local")
+            q = canon(strip(d["quantifier"]))
+            rep.check(re.match(ONE, q) is not None, "C06.Q", "%s :: literal quantifier #%d" % (f.id, i), sp_str(st["sp"]), "a literal is a single value",
+                      "the quantifier the checker records for a literal (#true, #false, #null, or a constant form handled in the dispatcher) is `%s`, not One: `some`/`none` or iteration accept it" % q[:120])
     # variables: mutable / assigned variables are stored as non-local; lookup returns the stored flag
     for nm, want in (("check_add", "mutable"), ("check_set", "always")):
         fl = [f for f in chk if f.self_path == "tsg::ast::UnscopedVariable" and f.name == nm]
@@ -194,6 +243,8 @@ def run(prog, rep):
         rep.check(ok, "C06.L", "%s :: stored flag" % f.id, f.loc(), "value.is_local = false %s before it is stored" % ("when mutable" if want == "mutable" else "always"),
                   "a %s variable can be recorded as local" % ("mutable" if want == "mutable" else "re-assigned"))
     rep.floor("C06.L", n, 14, "locality obligations")
+    ne = every_element_checked(prog, rep)
+    rep.floor("C06.E", ne, 8, "element-checking loops")
     # ---- E3.l: local-required == eagerly evaluated
     rep.rule("E3.l", "the set of constructs whose source must be local in the checker equals the set the lazy interpreter evaluates eagerly; forcing is reachable from the lazy execute phase only through evaluate_eager")
     required = set()
